@@ -189,11 +189,18 @@ pub trait Front {
     fn set_adr(&mut self, on: bool);
     fn get_adr(&mut self) -> bool;
     fn session_json(&mut self) -> Option<Value>;
+    /// `{:?}` of the session (every field, whether persisted or not), transient bookkeeping masked
+    fn session_debug(&mut self) -> Option<String>;
     fn session_keys(&mut self) -> Option<([u8; 16], [u8; 16], u32)>;
     fn snapshot(&self) -> VerifSnapshot;
     fn tx_outcome(&self, rng: &mut DryRng, join: bool) -> VerifTx;
     fn take_downlinks(&mut self) -> Vec<(u8, Vec<u8>)>;
     fn set_class_c(&mut self, on: bool);
+}
+
+/// `Uplink::overflowed` is transient by design (cleared before it is read again): masked.
+pub fn norm_session_debug(s: &str) -> String {
+    s.replace("overflowed: true", "overflowed: _").replace("overflowed: false", "overflowed: _")
 }
 
 fn dr_from(v: u8) -> region::DR {
@@ -428,6 +435,9 @@ impl<const P: u8, const G: i8, const N: usize> Front for AsyncFront<P, G, N> {
     fn session_json(&mut self) -> Option<Value> {
         self.dev.get_session().map(|s| serde_json::to_value(s).expect("session serialises"))
     }
+    fn session_debug(&mut self) -> Option<String> {
+        self.dev.get_session().map(|s| norm_session_debug(&format!("{s:?}")))
+    }
     fn session_keys(&mut self) -> Option<([u8; 16], [u8; 16], u32)> {
         self.dev.get_session().map(|s| (s.nwkskey().inner().0, s.appskey().inner().0, s.devaddr().value()))
     }
@@ -550,6 +560,12 @@ impl<const P: u8, const G: i8> NbFront<P, G> {
         let mut retried = false;
         let mut last_event_was: u8 = 0; // 0 = api call, 1 = timeout, 2 = rx done, 3 = tx complete
         for _ in 0..2000 {
+            if self.env.0.borrow().capture_sessions {
+                if let Some(sess) = self.dev.get_session() {
+                    let pair = (serde_json::to_string(sess).expect("session serialises"), norm_session_debug(&format!("{sess:?}")));
+                    self.env.0.borrow_mut().captured_sessions.push(pair);
+                }
+            }
             match resp {
                 Err(e) => {
                     let txt = match &e {
@@ -687,6 +703,9 @@ impl<const P: u8, const G: i8> Front for NbFront<P, G> {
     }
     fn session_json(&mut self) -> Option<Value> {
         self.dev.get_session().map(|s| serde_json::to_value(s).expect("session serialises"))
+    }
+    fn session_debug(&mut self) -> Option<String> {
+        self.dev.get_session().map(|s| norm_session_debug(&format!("{s:?}")))
     }
     fn session_keys(&mut self) -> Option<([u8; 16], [u8; 16], u32)> {
         self.dev.get_session().map(|s| (s.nwkskey().inner().0, s.appskey().inner().0, s.devaddr().value()))
